@@ -138,11 +138,20 @@ func runM(c *kit.Ctx, r *kit.Rand, exhaustiveOps []int) {
 		gobs = append(gobs, kit.GPair(gout, gSnap(takeSnap(rm, ident))))
 		jobs = append(jobs, gout)
 	}
+	known := []string{}
+	for _, id := range rids {
+		if _, ok := seen[id]; ok {
+			known = append(known, id)
+		}
+	}
+	if len(known) == 0 {
+		known = rids
+	}
 	pickRid := func() string {
 		if r.Chance(1, 120) {
-			return "rx" // never in the catalogue: exercises the panic branches
+			return kit.Pick(r, []string{"rx", "r3"}) // possibly not in the catalogue: exercises the panic branches
 		}
-		return kit.Pick(r, rids)
+		return kit.Pick(r, known)
 	}
 	panicked := false
 	doCan := func(h, id string) (bool, bool) {
@@ -291,9 +300,9 @@ func main() {
 		"Scheduler.addToNewNodeClaim template choice = choose_template",
 		"AllocationTracker.Commit/ReleaseInstanceTypes/IsAllocated (exclusive devices) = dcommit/drelease/dis_allocated",
 	}
-	nM, nN, nS, nT := 500, 700, 260, 400
+	nM, nN, nS, nT := 400, 450, 210, 250
 	if c.Thorough() {
-		nM, nN, nS, nT = 6000, 9000, 3000, 5000
+		nM, nN, nS, nT = 5000, 6000, 2400, 3000
 	}
 	for i := 0; i < nM; i++ {
 		runM(c, c.Rand.Fork(), nil)
@@ -315,5 +324,5 @@ func main() {
 			"DRA: the allocator's search is not modelled; the tracker model covers exclusive-device bookkeeping only",
 		},
 	}
-	c.Finish("From KV Require Import C17.Model C17.DraModel C17.Check.", "case", "check_all", 400)
+	c.Finish("From KV Require Import C17.Model C17.DraModel C17.Check.", "case", "check_all", 150)
 }
